@@ -19,7 +19,7 @@ EXPLANATION = (
     "are derived (zBot, z_top, zMid) are consumed only by the enumerated groundwater routines; the initial-water-content "
     "interpolation takes its mid-depths from the base column dzsum. C18.d (typestate): the scalars fill_nan derives from the frame (zSoil, nComp) are read, in every "
     "function that receives the user's Soil, only on paths that pass fill_nan() since the entry and since every dz update, and such a "
-    "function returns with the Soil fresh - so the deepening loop tests the real depth of the profile. C18.e: add_layer's two branches compare a depth from the surface (thickness, resp. thickness + a value read from dzsum) with the compartment bottoms under the same rounding (sibling agreement + quantity kinds). C18.f: the per-layer initial water content is written into layer depth_layer[i] with the value computed for request i (same index), never by position. NOT decided: arbitrary custom dz, pedotransfer "
+    "function returns with the Soil fresh - so the deepening loop tests the real depth of the profile. C18.e: add_layer's two branches compare a depth from the surface (thickness, resp. thickness + a value read from dzsum) with the compartment bottoms under the same rounding (sibling agreement + quantity kinds). C18.f: the per-layer initial water content is written into layer depth_layer[i] with the value computed for request i (same index), never by position. C18.g: the requested layers are completed over all layers of the profile before the per-layer fill (an unlisted layer takes the last request, it does not keep the 0 of the allocation). C18.h: with a water table the adjusted field capacity replaces the initial content elementwise, only where field capacity was requested. NOT decided: arbitrary custom dz, pedotransfer "
     "ranges, numeric interpolation of initial water content.")
 
 DERIVED_CONSUMERS_OK = {
@@ -547,6 +547,154 @@ def rule_f(chk, prog):
     chk.floor("C18.f", n, 1, "per-layer stores of the initial water content")
 
 
+def rule_g(chk, prog):
+    """C18.g (every layer receives an initial water content): the per-layer branch fills an array allocated with zeros through per-layer
+    selections, one request at a time; the list of requested layers it iterates over must have been completed over *all* layers of the
+    profile - an `append` of the loop variable of `for l in range(1, <nLayer> + 1)` (under `l not in <listed>`) on the local copy of the
+    user's list, on every path before the filling loop. Otherwise a layer the user did not list (the default request names layer 1 only)
+    starts at a water content of 0."""
+    from ..rdef import flow_of, ENTRY
+    fi = prog.find_func("read_model_initial_conditions")
+    chk.fn(fi.key)
+    where = f"{fi.module}:{fi.qualname}"
+    flow = flow_of(fi)
+    cfg = flow.cfg
+    # filling loops: for .. in range(len(<values>)): layer = L[i]; idx = profile.query("Layer==..").index; thini[idx] = value
+    n = 0
+    for lp in walk_no_nested(fi.node):
+        if not isinstance(lp, ast.For):
+            continue
+        stores_ = [a for a in ast.walk(lp) if isinstance(a, ast.Assign) and isinstance(a.targets[0], ast.Subscript) and isinstance(a.targets[0].slice, ast.Name)]
+        fills = []
+        for a in stores_:
+            nid = flow.stmt_node.get(id(a))
+            idefs = [cfg.nodes[d].ast for d in flow.defs_reaching(a.targets[0].slice.id, nid) if d != ENTRY] if nid is not None else []
+            if idefs and all(isinstance(d, ast.Assign) and "Layer" in norm(d.value) and "query" in norm(d.value) for d in idefs):
+                fills.append((a, idefs))
+        if not fills:
+            continue
+        a, idefs = fills[0]
+        # the list the layer selector is read from
+        lists = set()
+        for d in idefs:
+            for x in ast.walk(d.value):
+                if isinstance(x, ast.Name):
+                    for dd in flow.defs_reaching(x.id, flow.stmt_node[id(d)]):
+                        da = cfg.nodes[dd].ast if dd != ENTRY else None
+                        if isinstance(da, ast.Assign) and isinstance(da.value, ast.Subscript) and isinstance(da.value.value, ast.Name):
+                            lists.add(da.value.value.id)
+        if not lists:
+            continue
+        n += 1
+        L = sorted(lists)[0]
+        lpn = flow.stmt_node.get(id(lp)) or flow.node_of(lp)
+        if lpn is None:
+            lpn = next((k.id for k in cfg.live_nodes() if k.kind == "for" and k.ast is lp), None)
+        construct = f"per-layer fill `{norm(a)}` over the requests in `{L}`"
+        # completion: for l in range(1, <..nLayer..> + 1): [if l not in ..:] L.append(l)
+        comp_nodes = set()
+        for lp2 in walk_no_nested(fi.node):
+            if isinstance(lp2, ast.For) and isinstance(lp2.target, ast.Name) and isinstance(lp2.iter, ast.Call) and norm(lp2.iter.func) == "range" \
+                    and any(isinstance(x, ast.Attribute) and x.attr == "nLayer" for x in ast.walk(lp2.iter)) \
+                    and len(lp2.iter.args) == 2 and norm(lp2.iter.args[0]) == "1" and isinstance(lp2.iter.args[1], ast.BinOp) and isinstance(lp2.iter.args[1].op, ast.Add):
+                for c in ast.walk(lp2):
+                    if isinstance(c, ast.Call) and isinstance(c.func, ast.Attribute) and c.func.attr == "append" and isinstance(c.func.value, ast.Name) \
+                            and c.args and isinstance(c.args[0], ast.Name) and c.args[0].id == lp2.target.id:
+                        # L itself or the list L was copied from (np.array(L0))
+                        src = c.func.value.id
+                        ok_src = src == L or any(isinstance(cfg.nodes[dd].ast, ast.Assign) and any(isinstance(x, ast.Name) and x.id == src for x in ast.walk(cfg.nodes[dd].ast.value))
+                                                 for dd in flow.defs_reaching(L, lpn) if dd != ENTRY) if lpn is not None else src == L
+                        if ok_src:
+                            k = next((q.id for q in cfg.live_nodes() if q.kind == "for" and q.ast is lp2), None)
+                            if k is not None:
+                                comp_nodes.add(k)
+        if not comp_nodes:
+            chk.violation("C18.g", where, construct, f"the requested layers in `{L}` are never completed over all layers of the profile (no `for l in range(1, nLayer + 1): "
+                          f"... {L}.append(l)` before the fill): a layer that is not listed - layer 2 of the Paddy soil under the default request - keeps the 0.0 "
+                          "the array was allocated with", loc=fi.loc(lp))
+            continue
+        # the completion lies on every path to the fill that goes through the Layer-method branch: the fill loop is not reachable from the
+        # function entry when the completion loops are removed, unless the path also avoids ... (the fill is itself under the Layer test)
+        # tests that guard both the completion and the fill with the same outcome (`methodstr == "Layer"`, operands not redefined in the function)
+        # are correlated: a path that skips the completion through the other outcome cannot enter the fill
+        def _guards(k):
+            return {(norm(cfg.nodes[t].ast), l) for t, l in cfg.transitive_control_deps(k) if cfg.nodes[t].kind == "test"}
+        assigned = {t.id for x in walk_no_nested(fi.node) if isinstance(x, (ast.Assign, ast.AugAssign)) for t in (x.targets if isinstance(x, ast.Assign) else [x.target])
+                    if isinstance(t, ast.Name)}
+        counts = {}
+        for x in walk_no_nested(fi.node):
+            if isinstance(x, ast.Assign):
+                for t in x.targets:
+                    if isinstance(t, ast.Name):
+                        counts[t.id] = counts.get(t.id, 0) + 1
+        common = set.intersection(*[_guards(k) for k in comp_nodes]) & (_guards(lpn) if lpn is not None else set())
+        removed = set()
+        for txt, lab in common:
+            for t in cfg.live_nodes():
+                if t.kind == "test" and norm(t.ast) == txt and all(counts.get(v.id, 0) <= 1 for v in ast.walk(t.ast) if isinstance(v, ast.Name)):
+                    removed.add((t.id, (not lab) if isinstance(lab, bool) else lab))
+        def _reach():
+            seen, stack = set(), [cfg.entry]
+            while stack:
+                k = stack.pop()
+                if k in seen or k in comp_nodes:
+                    continue
+                if k == lpn:
+                    return True
+                seen.add(k)
+                for t, l in cfg.nodes[k].succs:
+                    if (k, l) not in removed:
+                        stack.append(t)
+            return False
+        if lpn is not None and _reach():
+            chk.violation("C18.g", where, construct, "the completion of the requested layers over all layers of the profile is skipped on some path to the per-layer fill", loc=fi.loc(lp))
+        else:
+            chk.ok("C18.g", where, construct, f"`{L}` is completed over range(1, nLayer + 1) on every path before the fill")
+    chk.floor("C18.g", n, 1, "per-layer fills of the initial water content")
+
+
+def rule_h(chk, prog, rule="C18.h"):
+    """C18.h / C19.h (with a water table the adjusted field capacity replaces the initial content only where field capacity was requested): every
+    store of the initial water content whose value mentions the adjusted field capacity is an elementwise selection
+    `np.where(<th compared with th_fc>, <adjusted>, <th>)` - never the whole array (which overrides the other requests and makes th an alias
+    of th_fc_Adj), and never decided by the last requested value alone."""
+    from ..rdef import flow_of, ENTRY
+    fi = prog.find_func("read_model_initial_conditions")
+    chk.fn(fi.key)
+    where = f"{fi.module}:{fi.qualname}"
+    flow = flow_of(fi)
+    cfg = flow.cfg
+    n = 0
+    for a in walk_no_nested(fi.node):
+        if not (isinstance(a, ast.Assign) and isinstance(a.targets[0], ast.Attribute) and a.targets[0].attr == "th"):
+            continue
+        if not any(isinstance(x, ast.Attribute) and x.attr == "th_fc_Adj" for x in ast.walk(a.value)):
+            continue
+        n += 1
+        construct = norm(a)
+        v = a.value
+        ok, why = False, "the whole initial profile is replaced by the adjusted field capacity"
+        if isinstance(v, ast.Call) and norm(v.func) in ("np.where", "numpy.where") and len(v.args) == 3:
+            adj_ok = any(isinstance(x, ast.Attribute) and x.attr == "th_fc_Adj" for x in ast.walk(v.args[1]))
+            keep_ok = isinstance(v.args[2], ast.Attribute) and v.args[2].attr == "th"
+            mask = v.args[0]
+            if isinstance(mask, ast.Name):
+                nid = flow.stmt_node.get(id(a))
+                ds = [cfg.nodes[d].ast for d in flow.defs_reaching(mask.id, nid) if d != ENTRY]
+                mask = ds[0].value if len(ds) == 1 and isinstance(ds[0], ast.Assign) else None
+            reads_th = mask is not None and any(isinstance(x, ast.Attribute) and x.attr == "th" for x in ast.walk(mask))
+            reads_fc = mask is not None and any(isinstance(x, ast.Attribute) and x.attr == "th_fc" for x in ast.walk(mask))
+            is_cmp = mask is not None and (isinstance(mask, ast.Compare) or (isinstance(mask, ast.Call) and norm(mask.func) in ("np.isclose", "numpy.isclose", "np.equal")))
+            ok = adj_ok and keep_ok and reads_th and reads_fc and is_cmp
+            why = "the selection is not `where(th compared with th_fc, adjusted, th)`"
+        if ok:
+            chk.ok(rule, where, construct, "elementwise: only compartments at their field capacity take the adjusted value; other requests are kept")
+        else:
+            chk.violation(rule, where, construct, why + ": requests other than field capacity (wilting point in layer 1, FC in layer 2) are overridden as soon as a "
+                          "water table is present, however deep - and th becomes the same array object as th_fc_Adj", loc=fi.loc(a))
+    chk.floor(rule, n, 1, "stores of the initial water content from the adjusted field capacity")
+
+
 def run(chk, prog, tier):
     rule_a(chk, prog)
     rule_b(chk, prog)
@@ -554,4 +702,6 @@ def run(chk, prog, tier):
     rule_d(chk, prog)
     rule_e(chk, prog)
     rule_f(chk, prog)
+    rule_g(chk, prog)
+    rule_h(chk, prog)
     chk.assume("A-1")
